@@ -140,7 +140,10 @@ def bounded(tier, seed):
         off = P.fmt(d, ellipses=False, **o)
         on = P.fmt(d, ellipses=True, **o)
         evals += 1
-        if re.sub(r"\s+", "", canon(off)) != re.sub(r"\s+", "", canon(on)):
+        # (line breaks may move because the rewrite changes lengths: compare without whitespace and without the quote markers
+        # that start continuation lines)
+        unq = lambda t: re.sub(r"\s+", "", re.sub(r"(?m)^(?:[ \t]*>)+", "", canon(t)))
+        if unq(off) != unq(on):
             viol.append({"clause": "doc_D", "input": {"text": d, "options": o, **P.doc_features(d)}, "got": on[:300], "want": off[:300]})
             continue
         if D.literal_spans(off) != D.literal_spans(on):
